@@ -125,9 +125,9 @@ def broken_decls(build_output: str):
     return res
 
 
-def _closure(mods):
-    """source files of the project-local import closure of `mods` (+ the driver and what it imports)"""
-    seen, todo = {}, list(mods) + ["Driver"]
+def _closure(mods, with_driver=True):
+    """source files of the project-local import closure of `mods` (+ the driver and what it imports, unless `with_driver=False`)"""
+    seen, todo = {}, list(mods) + (["Driver"] if with_driver else [])
     while todo:
         m = todo.pop()
         if m in seen:
@@ -329,7 +329,10 @@ def _main(mod, pid, tier, seed, args, t0):
 
         # imperative translator (DESIGN.md §2.2b): only the generated modules this property is stated about
         try:
-            T = T + translate_algo.regenerate(list(mod.TRANSLATE_ALGO))
+            # … and every generated module the property's theorems import, directly or through another generated module (a theorem must
+            # never be checked against a stale translation): the project-local import closure of LEAN_MODS, without the driver
+            dep = {f.stem for f in _closure(mod.LEAN_MODS, with_driver=False) if f.parent.name == "Gen" and f.stem.startswith("Algo")}
+            T = T + translate_algo.regenerate(sorted(set(mod.TRANSLATE_ALGO) | dep))
         except Exception as e:  # noqa: BLE001
             T = T + [f"translate_algo: the source has a shape the imperative translator cannot read ({type(e).__name__}: {str(e)[:200]})"]
     # 2. build property theorems (+ driver)
@@ -344,7 +347,7 @@ def _main(mod, pid, tier, seed, args, t0):
             if getattr(mod, "TRANSLATE", False) or getattr(mod, "TRANSLATE_ALGO", None):
                 # only what lies in this property's own import closure (or is the driver-side runner of one of its generated
                 # modules) is attributed to it; other generated files are another property's business
-                mine = {str(f.relative_to(LEAN)) for f in _closure(mod.LEAN_MODS)} | set(getattr(mod, "DRIVER_FILES", []))
+                mine = {str(f.relative_to(LEAN)) for f in _closure(mod.LEAN_MODS, with_driver=False)} | set(getattr(mod, "DRIVER_FILES", []))
                 P = P + [d for d in broken_decls(outd) if d not in P and (d["file"] in mine or d["file"] == "?")]
                 if not any(d["file"] in mine or d["file"] == "?" for d in broken_decls(outd)):
                     print("warning: driver did not rebuild (a generated file of another property?); using the previous binary", file=sys.stderr)
